@@ -107,6 +107,8 @@ def run(ctx):
     ctx.rule("R5.endpoint-exclusivity", "endpoint types: Send (payload Send), never Sync", floor=6)
     ctx.rule("R6.exhaustive-switch", "switches on a state value handle exactly the protocol's values for that point; other values diverge", floor=7)
     ctx.rule("R7.transition-table", "atomic operations on the state byte per function equal the protocol table (operation and constant operands)", floor=8)
+    ctx.rule("R10.weak-cas-only-in-retry-loop", "every compare_exchange on the state byte is strong, or weak with its failure side looping back to the exchange (a spurious failure reports the expected value)", floor=4)
+    ctx.rule("R11.pending-only-after-registration", "a literal Pending (None) result of the poll family is produced only on the success side of the CAS to AWAITING", floor=1)
     ctx.rule("R9.transition-on-every-path", "the sender's set / drop and the receiver's cancel perform a state transition (RMW or store) on every normal path: no exit leaves the peer waiting on a state that will never change", floor=3)
     ctx.rule("R8.acquire-before-payload-read", "every call of the payload read is reached with the last state read acquire-ish or fenced", floor=5)
 
@@ -128,6 +130,43 @@ def run(ctx):
         pc = path_count(b, rmw)
         ctx.ob("R9.transition-on-every-path", name, bool(rmw) and pc[0] >= 1, b.loc(),
                f"state transitions (swap/CAS/store) per normal path (min,max)={pc}")
+
+    # ---------------- R10 weak CAS only inside a retry loop
+    from .c06 import failure_side
+    for name, b in sorted(fn.items()):
+        for e in atomic_events(b):
+            if not (e["field"] and e["field"].endswith(STATE) and e["op"].startswith("compare_exchange")):
+                continue
+            if e["op"] == "compare_exchange":
+                ctx.ob("R10.weak-cas-only-in-retry-loop", f"{name}:CAS{tuple(e['vals'])}", True, b.loc(e["term"]["span"]), "strong compare_exchange: a failure always reports a value different from the expected one")
+                continue
+            fs = failure_side(b, e)
+            retry = e["bb"] in b.reachable(sorted(fs), unwind=False) if fs else False
+            ctx.ob("R10.weak-cas-only-in-retry-loop", f"{name}:CAS_weak{tuple(e['vals'])}", retry, b.loc(e["term"]["span"]),
+                   "compare_exchange_weak may fail spuriously and then reports the EXPECTED value; its failure side re-enters the exchange: "
+                   f"{retry}" + ("" if retry else " - a single-shot weak exchange lets a state that `cannot happen` reach the failure arms (unreachable!/wrong outcome)"))
+
+    # ---------------- R11 Pending only after a successful registration
+    for name, b in sorted(fn.items()):
+        if not name.startswith("poll") and name != "final_poll":
+            continue
+        rty = b.local_ty(0)["s"]
+        if not rty.startswith("std::option::Option<std::result::Result<"):
+            continue
+        cas = [e for e in atomic_events(b) if e["op"].startswith("compare_exchange") and e["field"] and e["field"].endswith(STATE)
+               and len(e["vals"]) >= 2 and e["vals"][1] == AWAITING]
+        dom = b.dominators(unwind=False)
+        for blk in b.blocks:
+            if blk.cleanup:
+                continue
+            for st in blk.stmts:
+                if st["k"] == "assign" and st["rv"]["k"] == "aggr" and st["rv"].get("variant") == "None" and st["place"]["l"] == 0 and not st["place"]["p"]:
+                    if name == "final_poll":
+                        continue  # the cancelling poll returns None for "nothing to clean up", not for Pending
+                    ok = any(e["bb"] in dom[blk.idx] and blk.idx not in failure_side(b, e) and blk.idx != e["bb"] for e in cas)
+                    ctx.ob("R11.pending-only-after-registration", f"{name}:None", ok, b.loc(st["span"]),
+                           "a Pending (None) result is only produced on the success side of the exchange that publishes the waker (-> AWAITING): "
+                           f"{ok}" + ("" if ok else " - the caller's waker is not registered on this path, so nobody will wake this task"))
 
     # ---------------- R7 transition table
     for name, b in sorted(fn.items()):
@@ -379,3 +418,10 @@ def run(ctx):
             ctx.ob("R5.endpoint-exclusivity", pid, not r["Send"] and not r["Sync"], r["ty"], f"Send={r['Send']} Sync={r['Sync']}")
         if kind in ("sync", "local"):
             ctx.ob("R5.endpoint-exclusivity", pid + "|not-clone", not r["Clone"] and not r["Copy"], r["ty"], f"Clone={r['Clone']} Copy={r['Copy']} (an endpoint cannot be duplicated)")
+
+    # ---------------- rules shared with C06 (anchored in the same functions of core/sync.rs)
+    ctx.import_rules("C06", {
+        "R7.grant-only-on-terminal": "an endpoint that takes ownership of the event without having observed a terminal state races the other endpoint for the payload: delivered twice or dropped while being read",
+        "R3.no-access-after-handover": "after the hand-over the other endpoint may free the storage; a later access reads a freed payload / waker",
+        "R6.sibling-agreement": "set() and the sender's drop are the two ways the sender leaves; a step present in one and missing in the other loses the wake-up or the payload on that path",
+    })
